@@ -128,7 +128,7 @@ def observe_tool(route, fname, start, stop, skip, fe, pol):
     del CAPTURE.calls[:]
     res = harness.run_tool(route, argv)
     if not res.ok:
-        if route == 'tap2sna' and 'Tape is empty' in res.err and not CAPTURE.calls:
+        if route == 'tap2sna' and 'Tape is empty' in (res.err + str(res.exc)) and not CAPTURE.calls:
             return Observed(empty=True), argv
         return Observed(error='%s %s: %s' % (route, ' '.join(argv), res.describe() + ('\n' + res.tb[-1200:] if res.tb else ''))), argv
     if len(CAPTURE.calls) != 1:
@@ -183,16 +183,10 @@ def check_against_model(shard, obs, tbs, m):
     shard.inc('monitor:edge_lists_checked')
     shard.inc('observed:edges', len(E))
     # (2) exactly the pulses the blocks specify
-    last_pause_only = bool(tbs) and tbs[-1].level is not None and not tbs[-1].pulses and not tbs[-1].data
-    if m.zero_seq:
-        shard.inc('monitor:canonical_comparisons')
-        ce, cm = tm.canonical(E), tm.canonical(m.edges)
-        if ce != cm and not (last_pause_only and tm.canonical(E[:-1]) == cm):
-            bad.append(('zero-seq', 'after cancelling coincident edges, ' + show_diff(ce, cm)))
-    else:
-        shard.inc('monitor:exact_comparisons')
-        if E != m.edges and not (last_pause_only and E[:-1] == m.edges):
-            bad.append(('edges', show_diff(E, m.edges)))
+    ok, text = edges_agree(E, m, tbs)
+    shard.inc('monitor:canonical_comparisons' if m.zero_seq else 'monitor:exact_comparisons')
+    if not ok:
+        bad.append(('zero-seq' if m.zero_seq else 'edges', text))
     # (3) data blocks: bytes, ranges, decoding
     want = [(i, tb) for i, tb in enumerate(tbs) if tb.data]
     got = [d for d in obs.dbs if d[0]]
@@ -211,20 +205,26 @@ def check_against_model(shard, obs, tbs, m):
         if tb.has_zero_seq():
             shard.inc('observed:sample_style_data_blocks')
             continue
-        if s != rg['dstart'] or e not in (rg['dend'], rg['last']):
+        if not m.zero_seq and (s != rg['dstart'] or e not in (rg['dend'], rg['last'])):
+            # (edge indices of the model are comparable only when no zero-length bit pulse was merged anywhere on the tape)
             bad.append(('dbrange', 'block %s (%d bytes, used %d, tail %d): DataBlock range %d..%d, the data runs from edge %d to edge %d%s' % (
                 tb.num, len(tb.data), tb.used, tb.tail, s, e, rg['dstart'], rg['dend'], ' (+tail: %d)' % rg['last'] if rg['tail'] else '')))
         if not tm.decodable(tb.s0, tb.s1):
             shard.inc('observed:undecodable_bit_sequences')
             continue
+        if i + 1 < len(tbs) and tbs[i + 1].has_zero_seq() and not tbs[i + 1].pulses:
+            # the next block may begin with a zero-length pulse, which lengthens this block's last pulse
+            shard.inc('observed:last_pulse_may_be_lengthened_by_next_block')
+            continue
         if not (0 <= s <= e < len(E)):
             continue
-        tail_in = rg['tail'] and e != rg['dend']
-        bits, why = tm.decode_bits(E, s, e, tb.s0, tb.s1, tb.tail if tail_in else 0)
-        if bits is None and rg['tail']:
-            bits2, why2 = tm.decode_bits(E, s, e, tb.s0, tb.s1, 0 if tail_in else tb.tail)
-            if bits2 is not None:
-                bits, why = bits2, None
+        # the range may or may not include the tail pulse: "first and last edge of the block's data" allows both
+        bits = why = None
+        for tail in ([tb.tail, 0] if rg['tail'] else [0]):
+            bits, why1 = tm.decode_bits(E, s, e, tb.s0, tb.s1, tail, rg['gap'])
+            why = why or why1
+            if bits is not None:
+                break
         shard.inc('monitor:blocks_decoded_from_edges')
         if bits is None:
             bad.append(('decode', 'block %s (%d bytes, used %d, s0=%r s1=%r tail %d): edges %d..%d do not decode: %s' % (
@@ -240,8 +240,41 @@ def check_against_model(shard, obs, tbs, m):
 
 # ------------------------------------------------------------------ findings on the unchanged tree, by mechanism
 
-def classify(fmt, tbs, tags):
-    """-> finding id or None. tags: set of mechanism tags of the failed conditions."""
+FINDINGS = {
+    'cut': 'C11-used-bits-cut-proportionally-when-bit-sequences-differ-in-length',
+    'lead': 'C11-leading-zero-length-bit-pulse-after-pause-moves-previous-edge',
+    'trail': 'C11-tail-not-merged-after-trailing-zero-length-bit-pulse',
+}
+
+def edges_agree(E, m, tbs):
+    """Does the observed edge list say what the model says?  -> (ok, text)"""
+    last_pause_only = bool(tbs) and tbs[-1].level is not None and not tbs[-1].pulses and not tbs[-1].data
+    if m.zero_seq:
+        ce, cm = tm.canonical(E), tm.canonical(m.edges)
+        if ce == cm or (last_pause_only and tm.canonical(E[:-1]) == cm):
+            return True, None
+        # zero-length pulses at the very end of the tape: whether they cancel the last edge is not observable
+        if ce[:-1] == cm and ce[-1] == m.t_end or cm[:-1] == ce and cm[-1] == m.t_end:
+            return True, None
+        return False, 'after cancelling coincident edges, ' + show_diff(ce, cm)
+    if E == m.edges or (last_pause_only and E[:-1] == m.edges):
+        return True, None
+    return False, show_diff(E, m.edges)
+
+def classify(fmt, tbs, tags, obs=None, opts=None, m=None):
+    """-> finding id or None. tags: set of mechanism tags of the failed conditions. A finding id is returned only when the
+    tape has the mechanism's shape AND the observed edge list is exactly what the physical model plus the named
+    mechanism(s) predicts (smallest set of mechanisms that explains it)."""
+    if obs is None or obs.edges is None or tbs is None or m is None or not m.preds:
+        return None
+    if not tags <= {'edges', 'zero-seq', 'dbrange', 'decode', 'bits'}:
+        return None
+    preds = [q for q in tm.QUIRKS if q in m.preds]
+    subsets = [[q] for q in preds] + [[a, b] for i, a in enumerate(preds) for b in preds[i + 1:]] + ([preds] if len(preds) == 3 else [])
+    for sub in subsets:
+        m2 = tm.model_edges(tbs, opts['fe'], opts['pol'], quirks=tuple(sub))
+        if edges_agree(obs.edges, m2, tbs)[0]:
+            return FINDINGS[sub[0]]
     return None
 
 # ------------------------------------------------------------------ one case = one tape, one option set, one route
@@ -296,7 +329,7 @@ def tape_case(shard, key, fmt, raw, opts, route, extra=None):
         shard.inc('observed:selections')
     if bad:
         tags = {t for t, _ in bad}
-        shard.violation('%s tape (%d bytes), %s: %s' % (fmt, len(raw), describe_opts(opts, route), '; '.join(t for _, t in bad[:3])), rp, classify(fmt, tbs, tags))
+        shard.violation('%s tape (%d bytes), %s: %s' % (fmt, len(raw), describe_opts(opts, route), '; '.join(t for _, t in bad[:3])), rp, classify(fmt, tbs, tags, obs, opts, m))
     return obs
 
 DEFAULT_OPTS = {'start': 1, 'stop': 0, 'skip': None, 'fe': 0, 'pol': 0}
